@@ -70,12 +70,14 @@ struct World {
   std::map<std::pair<uint64_t, int>, std::deque<size_t>> write_cuts;  // 0 = EAGAIN once
   std::function<std::deque<size_t>(uint64_t stream, int side)> read_cut_source;  // lazily supplies cuts for new streams
   size_t default_read_cut = 0;                                        // applied when the list is empty (0 = none)
+  std::map<std::pair<uint64_t, int>, std::deque<size_t>> deliver_chunks;   // bytes written by (stream, side) arrive in pieces of these sizes, 1 ms apart
 
   // limits
   uint64_t max_events = 200000;
   uint64_t max_sim_ns = 4000ull * 1000000000ull;
   uint64_t long_sleep_ns = 7200ull * 1000000000ull;   // a wake-up further away than this ends the run as quiescent
   uint64_t events = 0;
+  uint64_t max_spin = 20000;     // steps without the clock advancing before the run is declared spinning
   int depth = 0;
   bool aborted = false;        // limits hit or deadlock inside a nested wait
   std::string abort_why;
